@@ -57,19 +57,6 @@ def _formula_writes(events):
         yield ev, a
 
 
-def c05_trigger_formula_sorted_lookup_dangling_map(events, violation):
-  """F-t: a column whose formula does a lookup is switched to a data column (isFormula False keeps
-  the text as a trigger formula) somewhere in the history."""
-  lookup_cols = set()
-  for _ev, a in _formula_writes(events):
-    f = a[3].get("formula")
-    if f and ("lookup" in f or ".all" in f):
-      lookup_cols.add((a[1], a[2]))
-    if a[0] == "ModifyColumn" and a[3].get("isFormula") is False and (a[1], a[2]) in lookup_cols:
-      return True
-  return False
-
-
 def c05_error_cells_frozen_into_data_column(events, violation):
   """F-r: the mismatch is an error class turning into NoneType, after a formula column was
   converted to data."""
@@ -194,3 +181,10 @@ def c04_fault_mid_record_doc_action(events, violation):
   kind, action = _fault_site(violation)
   return kind == "F3s" and action in ("BulkUpdateRecord", "BulkRemoveRecord", "ReplaceTableData",
                                       "BulkAddRecord")
+
+
+def c16_rename_captures_an_undefined_name(events, violation):
+  """F-n: the cell was a NameError before the rename (its formula mentions a table id that did not
+  exist) and the rename gave some table that id."""
+  return (violation.get("oracle") == "rename-changed-value"
+          and " was ['E', 'NameError'], after " in violation.get("detail", ""))
